@@ -11,6 +11,9 @@ use crate::family;
 use crate::fl::{HOp, Hist};
 use crate::hooks::ts;
 use crate::lg::{self, AgeK, Cfg, CleanK, CritK, NamingK, NG};
+
+/// the six schemes plus a custom format whose names do not sort chronologically
+const NG9: [NamingK; 7] = [NamingK::Numbers, NamingK::NumbersDirect, NamingK::Timestamps, NamingK::TimestampsDirect, NamingK::CustomCur, NamingK::CustomDirect, NamingK::DayFirstDirect];
 use crate::report::{Meta, Out, Violation};
 use crate::{for_each_word, run_isolated, Ran};
 use chrono::{DateTime, Datelike, Local, Timelike};
@@ -68,10 +71,10 @@ fn depth(tier: &str) -> usize {
     }
 }
 fn units(_tier: &str) -> usize {
-    TZS.len() * AGES.len() * NG.len() + 1
+    TZS.len() * AGES.len() * NG9.len() + 1
 }
 fn bounds(tier: &str) -> Value {
-    json!({"time_zones": TZS.len(), "ages": 4, "namings": NG.len(), "start_states": 4, "criteria": 3, "base_instants": bases().len(), "steps": STEPS, "depth": depth(tier)})
+    json!({"time_zones": TZS.len(), "ages": 4, "namings": NG9.len(), "start_states": 5, "criteria": 3, "base_instants": bases().len(), "steps": STEPS, "depth": depth(tier)})
 }
 
 #[derive(Clone, Debug)]
@@ -80,7 +83,8 @@ struct Case {
     use_utc: bool,
     age: AgeK,
     naming: NamingK,
-    /// 0 fresh, 1 append onto current file of the same period, 2 of an earlier period
+    /// 0 fresh, 1 append onto current file of the same period, 2 of an earlier period, 3 an empty
+    /// one of an earlier period, 4 like 1 with an older file of the family besides
     start: u8,
     /// 0 Age, 1 AgeOrSize(huge), 2 AgeOrSize(small)
     crit: u8,
@@ -132,14 +136,24 @@ fn run_word(c: &Case, steps: &[i64]) -> Result<(Vec<usize>, usize), (String, Str
         age_rotations: 0,
     };
     let mut cur_size: u64 = 0;
+    // start state 4 (direct timestamp namings; otherwise like 1): besides the current file of the
+    // same period there is an older file of the family, 15 days back - with a format that puts the
+    // day first its name sorts *behind* the current file's
+    if c.start == 4 && c.naming.direct() && c.naming.ts_format().is_some() {
+        let created = base - chrono::Duration::days(15) - chrono::Duration::seconds(1);
+        let p = env.dir.join(format!("app_{}.log", infix_of(c, &created).unwrap()));
+        std::fs::write(&p, format!("older{ending}")).map_err(|e| ("machinery".to_string(), e.to_string()))?;
+        env.clock.set_created(&p, created);
+        pred.files.push((created, vec!["older".into()]));
+    }
     // seeded current file
     if c.start != 0 {
-        let created = if c.start == 1 { base - chrono::Duration::seconds(1) } else { base - chrono::Duration::days(2) - chrono::Duration::seconds(1) };
+        let created = if c.start == 1 || c.start == 4 { base - chrono::Duration::seconds(1) } else { base - chrono::Duration::days(2) - chrono::Duration::seconds(1) };
         let name = match c.naming {
             NamingK::Numbers | NamingK::Timestamps => "app_rCURRENT.log".to_string(),
             NamingK::CustomCur => format!("app_{}.log", lg::CUSTOM_CUR),
             NamingK::NumbersDirect => "app_r00000.log".to_string(),
-            NamingK::TimestampsDirect | NamingK::CustomDirect | NamingK::CoarseDirect => format!("app_{}.log", infix_of(c, &created).unwrap()),
+            NamingK::TimestampsDirect | NamingK::CustomDirect | NamingK::CoarseDirect | NamingK::DayFirstDirect => format!("app_{}.log", infix_of(c, &created).unwrap()),
         };
         // (with the small size limit the seeded file is already over the limit: the first write
         // meets the size part, and for an earlier period also the age part of AgeOrSize)
@@ -289,7 +303,7 @@ fn set_tz(tz: &str) {
 }
 
 fn run_unit(tier: &str, unit: usize, out: &mut Out) {
-    let n_main = TZS.len() * AGES.len() * NG.len();
+    let n_main = TZS.len() * AGES.len() * NG9.len();
     if unit == n_main {
         if tier != "quick" {
             realtime_crosscheck(out);
@@ -297,12 +311,12 @@ fn run_unit(tier: &str, unit: usize, out: &mut Out) {
         }
         return;
     }
-    let (tz, use_utc) = TZS[unit / (AGES.len() * NG.len())];
-    let age = AGES[(unit / NG.len()) % AGES.len()];
-    let naming = NG[unit % NG.len()];
+    let (tz, use_utc) = TZS[unit / (AGES.len() * NG9.len())];
+    let age = AGES[(unit / NG9.len()) % AGES.len()];
+    let naming = NG9[unit % NG9.len()];
     set_tz(tz);
     let d = depth(tier);
-    for start in 0..4u8 {
+    for start in 0..5u8 {
         for crit in 0..3u8 {
             for base in 0..bases().len() {
                 let c = Case {
@@ -477,13 +491,13 @@ fn replay(case: &Value) -> Vec<Violation> {
         return out.violations;
     }
     let unit = case["unit"].as_u64().unwrap_or(0) as usize;
-    let (tz, use_utc) = TZS[(unit / (AGES.len() * NG.len())).min(TZS.len() - 1)];
+    let (tz, use_utc) = TZS[(unit / (AGES.len() * NG9.len())).min(TZS.len() - 1)];
     set_tz(tz);
     let c = Case {
         tz,
         use_utc,
-        age: AGES[(unit / NG.len()) % AGES.len()],
-        naming: NG[unit % NG.len()],
+        age: AGES[(unit / NG9.len()) % AGES.len()],
+        naming: NG9[unit % NG9.len()],
         start: case["start"].as_u64().unwrap_or(0) as u8,
         crit: case["crit"].as_u64().unwrap_or(0) as u8,
         base: case["base"].as_u64().unwrap_or(0) as usize,
